@@ -167,6 +167,7 @@ CONFIGS = {
     'v6-vmsa': {'memory_system_architecture': 'VMSA'},
     'v7-lpae': {'arch_version': 7, 'memory_system_architecture': 'VMSA', 'have_lpae': True},
     'v7-virt': {'arch_version': 7, 'memory_system_architecture': 'VMSA', 'have_lpae': True, 'have_virt_ext': True, 'have_mp_ext': True},
+    'v7-tee': {'arch_version': 7, 'have_thumbee': True},
     # implementation-defined vectors at address 0 / an odd place (SCTLR.VE = 1 uses them for IRQ / FIQ; the reset vector when the configuration says so)
     'v6-vec': {'impdef_irq_vector': 0, 'impdef_fiq_vector': 0, 'has_imp_def_reset_vector': True, 'impdef_reset_vector': 0x2000},
 }
@@ -244,6 +245,11 @@ def step_case(rng, cfgname, thumb, code, mode=None, it=None, e=None, code_base=N
         pc = (1 << 32) - (rng.choice((4, 8)) if not thumb else rng.choice((2, 4, 6, 8)))
     st['R.PC'] = pc
     st['cpsr'] = gen_cpsr(rng, cfg, thumb, mode, it, e)
+    if cfg.get('have_thumbee') and thumb and rng.random() < 0.6:
+        # ThumbEE state (J:T = 1:1): loads / stores null-check their base register and branch to the handler at TEEHBR - 4. Not modelled by the reference
+        # (excluded from exact comparison); totality, the 32-bit range invariant and privilege confinement still apply
+        st['cpsr'] |= 1 << 24
+        st['teehbr'] = rng.choice((0, 0, 4, 0x8100, 0xFFFFFFFC, code_base + 0x80)) & ~3
     for k in SPSR_KEYS:
         st[k] = gen_spsr(rng, cfg)
     st['elr_hyp'] = val32(rng, ptrs)
@@ -291,6 +297,14 @@ def step_case(rng, cfgname, thumb, code, mode=None, it=None, e=None, code_base=N
                 st['vtcr'] = (rng.getrandbits(6) << 8) | (sl0 << 6) | ((1 if t0sz < 0 else 0) << 4) | (t0sz & 15)
                 st['vttbr'] = DATA[0] & ~0xFF
             st['hsctlr'] = (rng.getrandbits(1) << 30) | (rng.getrandbits(1) << 25) | (rng.getrandbits(1) << 1)
+            if rng.random() < 0.3:
+                # the Hyp-mode MMU on (PL2 stage-1 regime; long descriptors through HTTBR / HTCR): the reference does not model this regime, the
+                # totality / confinement / determinism checks do run in it
+                st['hsctlr'] |= 1
+                st['httbr'] = DATA[0] | (rng.getrandbits(2) << 5)
+                st['htcr'] = rng.choice((0, 0, 1, 2, 4, 7)) | (rng.getrandbits(6) << 8)
+                st['hmair0'] = rng.getrandbits(32)
+                st['hmair1'] = rng.getrandbits(32)
             st['hvbar'] = 0x8000
             st['hcptr'] = rng.getrandbits(14)
             st['hstr'] = rng.getrandbits(16)
